@@ -27,8 +27,20 @@ def setup_path():
                 del sys.modules[name]
 
 
+_MODS = {}
+
+
 def mod(name):
     """Import geodepy.<name> (or top-level module) from the working tree and verify where it came from."""
+    m = _MODS.get(name)
+    if m is not None:
+        return m
+    m = _mod(name)
+    _MODS[name] = m
+    return m
+
+
+def _mod(name):
     setup_path()
     m = importlib.import_module(name)
     f = os.path.abspath(getattr(m, "__file__", "") or "")
